@@ -4,39 +4,65 @@
 (*                            filename channel)                                 *)
 (*   OpenFilesToChan loop   : Dispatch (takes a name, acquires the semaphore,   *)
 (*                            wg.Add, spawns a reader)                          *)
-(*   reader goroutine       : Open / OpenFail, Probe (gzip.NewReader), Rewind   *)
-(*                            (Seek(0) after a failed probe), ReadLine, ReadErr *)
-(*                            (OnError callback), ReadEnd, Release (deferred    *)
-(*                            <-sema, wg.Done)                                  *)
+(*   reader goroutine       : Open / OpenFail / OpenEmfile (os.Open takes a     *)
+(*                            descriptor), Probe (gzip.NewReader; for an input  *)
+(*                            that cannot be rewound: peek at the magic number, *)
+(*                            header check through a recorder), Rewind (Seek(0) *)
+(*                            resp. replay of the record after a failed probe), *)
+(*                            ReadLine, ReadErr (OnError callback), ReadEnd     *)
+(*                            (file.Close gives the descriptor back), Release   *)
+(*                            (deferred <-sema, wg.Done)                        *)
 (*   dispatcher             : Close    (wg.Wait(); out.close())                 *)
 (* standard input is a single reader outside the semaphore (OpenReaderToChan).  *)
 (* TLC explores every interleaving for every scenario of LifeScenarios and      *)
 (* checks that the run always terminates, never exceeds or leaks the semaphore, *)
-(* reads every mention exactly once, and ends with exactly the deliveries, the  *)
-(* error count and the exit status the functional specification Inputs demands. *)
+(* never has more than --readers inputs open (hence never runs out of           *)
+(* descriptors, however many inputs are mentioned), reads every mention exactly *)
+(* once, and ends with exactly the deliveries, the error count and the exit     *)
+(* status the functional specification Inputs demands - whether an input is a   *)
+(* regular file or a pipe.                                                      *)
 EXTENDS InputsUniv
 CONSTANTS ProbeLen,        \* bytes consumed from a file before the gzip probe gives up
           Leak,            \* FALSE = the design; TRUE = the open-error path forgets to release the semaphore
                            \* (a deliberately broken design: TLC must refute SemaOK / Terminates for it)
-          LifeT0Only,      \* FALSE = every tree of the universe; TRUE = only the default tree (used with Leak)
-          LifePairs        \* two-argument scenarios are included iff both forms are in this set of form indices
+          LifeSel,         \* "all" = every tree of the universe; "t0" = only the default tree; "pipes" = only
+                           \* the trees in which `a` is a FIFO (the last two for the broken designs)
+          LifePairs,       \* two-argument scenarios are included iff both forms are in this set of form indices
+          Part, NParts,    \* LifeSel = "all": this run explores the trees with index = Part (mod NParts)
+          MaxFd,           \* descriptors the operating system grants the readers (>= the largest --readers)
+          OpenFirst,       \* FALSE = the design: the reader slot is taken BEFORE the reader is started;
+                           \* TRUE = every name gets its goroutine at once, which opens the file and only then
+                           \* waits for a slot (broken: TLC must refute FdOK / FinalOK)
+          PipeProbe        \* how -z probes an input that cannot be rewound:
+                           \*   "record"   the design: peek at the magic number; the header check reads through a
+                           \*              recorder whose content is served again when the check fails
+                           \*   "norecord" peek, header check directly on the stream (broken: what the failed
+                           \*              check consumed is lost)
+                           \*   "seek"     probe and Seek(0) as for a regular file (broken: the Seek fails)
+                           \*   "sizeskip" no probe at all when the reported size is 0 (broken: a pipe reports 0)
 
-VARIABLES sc, argi, q, rd, sema, wg, errs, closed
-vars == <<sc, argi, q, rd, sema, wg, errs, closed>>
+VARIABLES sc, argi, q, rd, sema, wg, errs, closed, fd
+vars == <<sc, argi, q, rd, sema, wg, errs, closed, fd>>
 
+LifeArgs == {a \in ArgLists : Len(a) <= 1 \/ \A i \in DOMAIN a : a[i] \in {Forms[j] : j \in LifePairs}}
+LifeTrees ==
+  IF LifeSel = "t0" THEN {T0}
+  ELSE IF LifeSel = "pipes" THEN {TreeWith(P_a, v) : v \in PipeVariants(P_a)}
+  ELSE {TreeSeq[i] : i \in {j \in 1..Len(TreeSeq) : j % NParts = Part}}
 LifeScenarios ==
-  {s \in (IF LifeT0Only THEN FileScenariosOf({T0}) \cup StdinScenarios ELSE Universe) : s.cmd = "filter" /\
-     (Len(s.args) <= 1 \/ \A i \in DOMAIN s.args : s.args[i] \in {Forms[j] : j \in LifePairs})}
+  FileScenariosIn(LifeTrees, LifeArgs, {"filter"})
+  \cup (IF LifeSel = "pipes" \/ (LifeSel = "all" /\ Part # 0) THEN {} ELSE {s \in StdinScenarios : s.cmd = "filter"})
 
-Active == {"spawned", "probe", "rewind", "reading", "release"}
-NewReader(m, st0) == [m |-> m, st |-> st0, off |-> 0, n |-> 0, lim |-> 0, dec |-> FALSE, errd |-> FALSE]
+Active == {"spawned", "wait", "probe", "rewind", "reading", "release"}
+NewReader(m, st0, held) == [m |-> m, st |-> st0, off |-> 0, n |-> 0, lim |-> 0, dec |-> FALSE, errd |-> FALSE,
+                            held |-> held, open |-> FALSE, emf |-> FALSE]
 StdinMention == [std |-> TRUE, p |-> <<>>]
 
 Init ==
   /\ sc \in LifeScenarios
-  /\ argi = 1 /\ q = <<>> /\ sema = 0 /\ errs = 0 /\ closed = FALSE
+  /\ argi = 1 /\ q = <<>> /\ sema = 0 /\ errs = 0 /\ closed = FALSE /\ fd = 0
   /\ IF UsesStdin(sc.args)
-     THEN rd = <<NewReader(StdinMention, "reading")>> /\ wg = 1
+     THEN rd = <<NewReader(StdinMention, "reading", FALSE)>> /\ wg = 1
      ELSE rd = <<>> /\ wg = 0
 
 \* ---- the expansion goroutine ------------------------------------------------
@@ -44,101 +70,142 @@ Produce ==
   /\ ~UsesStdin(sc.args) /\ argi <= Len(sc.args)
   /\ q' = q \o ExpandArg(sc.tree, sc.args[argi], sc.rec)
   /\ argi' = argi + 1
-  /\ UNCHANGED <<sc, rd, sema, wg, errs, closed>>
+  /\ UNCHANGED <<sc, rd, sema, wg, errs, closed, fd>>
 
 \* ---- the dispatcher loop ----------------------------------------------------
 Dispatch ==
-  /\ q # <<>> /\ sema < sc.readers
-  /\ sema' = sema + 1 /\ wg' = wg + 1
-  /\ rd' = Append(rd, NewReader([std |-> FALSE, p |-> Head(q)], "spawned"))
+  /\ q # <<>>
+  /\ IF OpenFirst THEN sema' = sema ELSE sema < sc.readers /\ sema' = sema + 1
+  /\ wg' = wg + 1
+  /\ rd' = Append(rd, NewReader([std |-> FALSE, p |-> Head(q)], "spawned", ~OpenFirst))
   /\ q' = Tail(q)
-  /\ UNCHANGED <<sc, argi, errs, closed>>
+  /\ UNCHANGED <<sc, argi, errs, closed, fd>>
 
 \* ---- one reader -------------------------------------------------------------
 KindOf(r) == IF r.m.std THEN (IF sc.stdin.k = "dir" THEN "dir" ELSE "file") ELSE KindAt(sc.tree, r.m.p)
 RawOf(r)  == IF r.m.std THEN sc.stdin.data ELSE DataAt(sc.tree, r.m.p)
+TrOf(r)   == IF r.m.std \/ ~Exists(sc.tree, r.m.p) THEN "reg" ELSE NodeAt(sc.tree, r.m.p).tr
+ImageOf(r) == Image(KindOf(r), RawOf(r))
+Consumed(b) == IF Len(b) < ProbeLen THEN Len(b) ELSE ProbeLen
 
 OpenFail(i) ==
   /\ rd[i].st = "spawned" /\ KindOf(rd[i]) = "absent"
   /\ errs' = errs + 1
   /\ IF Leak THEN rd' = [rd EXCEPT ![i].st = "done"] /\ wg' = wg - 1
      ELSE rd' = [rd EXCEPT ![i].st = "release"] /\ wg' = wg
-  /\ UNCHANGED <<sc, argi, q, sema, closed>>
+  /\ UNCHANGED <<sc, argi, q, sema, closed, fd>>
+\* the operating system has no descriptor left: a READABLE input is reported as an open error
+OpenEmfile(i) ==
+  /\ rd[i].st = "spawned" /\ KindOf(rd[i]) # "absent" /\ fd >= MaxFd
+  /\ errs' = errs + 1
+  /\ rd' = [rd EXCEPT ![i].st = "release", ![i].emf = TRUE]
+  /\ UNCHANGED <<sc, argi, q, sema, wg, closed, fd>>
 Open(i) ==
-  /\ rd[i].st = "spawned" /\ KindOf(rd[i]) # "absent"
-  /\ rd' = [rd EXCEPT ![i].st = IF sc.gz THEN "probe" ELSE "reading"]
+  /\ rd[i].st = "spawned" /\ KindOf(rd[i]) # "absent" /\ fd < MaxFd
+  /\ fd' = fd + 1
+  /\ rd' = [rd EXCEPT ![i].open = TRUE,
+                      ![i].st = IF OpenFirst THEN "wait" ELSE IF sc.gz THEN "probe" ELSE "reading"]
   /\ UNCHANGED <<sc, argi, q, sema, wg, errs, closed>>
+\* only in the OpenFirst design: the slot is taken with the file already open
+Acquire(i) ==
+  /\ rd[i].st = "wait" /\ sema < sc.readers
+  /\ sema' = sema + 1
+  /\ rd' = [rd EXCEPT ![i].held = TRUE, ![i].st = IF sc.gz THEN "probe" ELSE "reading"]
+  /\ UNCHANGED <<sc, argi, q, wg, errs, closed, fd>>
+
 \* gzip.NewReader: a gzip header -> decode; anything else -> some bytes were consumed, fall back
+DecodeFrom(i, k, d) ==
+  \E lim \in (IF k = "truncgz" THEN 0..Len(d) ELSE IF k = "badgz" THEN {0} ELSE {Len(d)}) :
+    rd' = [rd EXCEPT ![i].st = "reading", ![i].dec = TRUE, ![i].lim = lim]
 Probe(i) ==
   /\ rd[i].st = "probe"
-  /\ LET k == KindOf(rd[i]) d == RawOf(rd[i]) IN
-     IF k \in GzKinds
-     THEN \E lim \in (IF k = "truncgz" THEN 0..Len(d) ELSE IF k = "badgz" THEN {0} ELSE {Len(d)}) :
-            rd' = [rd EXCEPT ![i].st = "reading", ![i].dec = TRUE, ![i].lim = lim]
-     ELSE rd' = [rd EXCEPT ![i].st = "rewind", ![i].off = IF Len(d) < ProbeLen THEN Len(d) ELSE ProbeLen]
-  /\ UNCHANGED <<sc, argi, q, sema, wg, errs, closed>>
+  /\ LET k == KindOf(rd[i]) d == RawOf(rd[i]) img == ImageOf(rd[i]) pipe == TrOf(rd[i]) = "pipe" IN
+     IF PipeProbe = "sizeskip" /\ ReportedSize(k, d, TrOf(rd[i])) = 0
+     THEN rd' = [rd EXCEPT ![i].st = "reading"]                      \* handed on as it is
+     ELSE IF pipe /\ PipeProbe # "seek" /\ ~HasMagic(img)
+     THEN rd' = [rd EXCEPT ![i].st = "reading"]                      \* peeked only: nothing consumed
+     ELSE IF k \in GzKinds THEN DecodeFrom(i, k, d)
+     ELSE rd' = [rd EXCEPT ![i].st = "rewind", ![i].off = Consumed(img)]
+  /\ UNCHANGED <<sc, argi, q, sema, wg, errs, closed, fd>>
+\* back to the first byte: Seek(0) on a regular file, the recorded bytes again on a pipe
 Rewind(i) ==
   /\ rd[i].st = "rewind"
-  /\ rd' = [rd EXCEPT ![i].st = "reading", ![i].off = 0]
-  /\ UNCHANGED <<sc, argi, q, sema, wg, errs, closed>>
+  /\ LET works == TrOf(rd[i]) = "reg" \/ PipeProbe = "record" IN
+     rd' = [rd EXCEPT ![i].st = "reading", ![i].off = IF works THEN 0 ELSE @]
+  /\ UNCHANGED <<sc, argi, q, sema, wg, errs, closed, fd>>
 
 \* the bytes reader r obtains before its stream ends (by EOF or by a failure)
 Stream(r) ==
   IF r.dec THEN TakeFirst(RawOf(r), r.lim)
-  ELSE IF KindOf(r) = "dir" THEN <<>> ELSE DropFirst(RawOf(r), r.off)
+  ELSE IF KindOf(r) = "dir" THEN <<>> ELSE DropFirst(ImageOf(r), r.off)
 Fails(r) == IF r.dec THEN KindOf(r) \in {"truncgz", "crcgz", "badgz"} ELSE KindOf(r) = "dir"
 
 ReadLine(i) ==
   /\ rd[i].st = "reading" /\ rd[i].n < Len(LinesOf(Stream(rd[i])))
   /\ rd' = [rd EXCEPT ![i].n = @ + 1]
-  /\ UNCHANGED <<sc, argi, q, sema, wg, errs, closed>>
+  /\ UNCHANGED <<sc, argi, q, sema, wg, errs, closed, fd>>
 \* the OnError callback runs when the failing Read returns - possibly before the lines that
 \* were already buffered have been handed out
 ReadErr(i) ==
   /\ rd[i].st = "reading" /\ Fails(rd[i]) /\ ~rd[i].errd
   /\ errs' = errs + 1
   /\ rd' = [rd EXCEPT ![i].errd = TRUE]
-  /\ UNCHANGED <<sc, argi, q, sema, wg, closed>>
+  /\ UNCHANGED <<sc, argi, q, sema, wg, closed, fd>>
+\* end of the stream: the deferred file.Close() gives the descriptor back (the decompressor AND the file)
 ReadEnd(i) ==
   /\ rd[i].st = "reading" /\ rd[i].n = Len(LinesOf(Stream(rd[i])))
   /\ Fails(rd[i]) => rd[i].errd
-  /\ rd' = [rd EXCEPT ![i].st = "release"]
+  /\ rd' = [rd EXCEPT ![i].st = "release", ![i].open = FALSE]
+  /\ fd' = IF rd[i].open THEN fd - 1 ELSE fd
   /\ UNCHANGED <<sc, argi, q, sema, wg, errs, closed>>
 \* the deferred function: runs on EVERY path out of the reader
 Release(i) ==
   /\ rd[i].st = "release"
-  /\ sema' = IF rd[i].m.std THEN sema ELSE sema - 1
+  /\ sema' = IF rd[i].held THEN sema - 1 ELSE sema
   /\ wg' = wg - 1
-  /\ rd' = [rd EXCEPT ![i].st = "done"]
-  /\ UNCHANGED <<sc, argi, q, errs, closed>>
+  /\ rd' = [rd EXCEPT ![i].st = "done", ![i].held = FALSE]
+  /\ UNCHANGED <<sc, argi, q, errs, closed, fd>>
 
 Close ==
   /\ ~closed /\ wg = 0 /\ q = <<>>
   /\ UsesStdin(sc.args) \/ argi > Len(sc.args)
   /\ closed' = TRUE
-  /\ UNCHANGED <<sc, argi, q, rd, sema, wg, errs>>
+  /\ UNCHANGED <<sc, argi, q, rd, sema, wg, errs, fd>>
 
-Reader(i) == OpenFail(i) \/ Open(i) \/ Probe(i) \/ Rewind(i) \/ ReadLine(i) \/ ReadErr(i) \/ ReadEnd(i) \/ Release(i)
+Reader(i) == OpenFail(i) \/ OpenEmfile(i) \/ Open(i) \/ Acquire(i) \/ Probe(i) \/ Rewind(i) \/ ReadLine(i)
+             \/ ReadErr(i) \/ ReadEnd(i) \/ Release(i)
 Next == Produce \/ Dispatch \/ Close \/ \E i \in DOMAIN rd : Reader(i)
 Finished == closed /\ UNCHANGED vars
 Spec == Init /\ [][Next \/ Finished]_vars /\ WF_vars(Next)
 
 \* ---- properties -------------------------------------------------------------
 NActive == Cardinality({i \in DOMAIN rd : rd[i].st \in Active})
+NHeld   == Cardinality({i \in DOMAIN rd : rd[i].held})
+NOpen   == Cardinality({i \in DOMAIN rd : rd[i].open})
 SemaOK ==
   /\ sema >= 0 /\ sema <= sc.readers
-  /\ ~UsesStdin(sc.args) => sema = NActive
+  /\ sema = NHeld
+  /\ (~OpenFirst /\ ~UsesStdin(sc.args)) => sema = NActive
   /\ wg = NActive
-ErrsOK == errs = Cardinality({i \in DOMAIN rd : rd[i].errd \/ (rd[i].st \in {"release", "done"} /\ KindOf(rd[i]) = "absent")})
+\* the resource the semaphore protects: an input is open only while its reader holds a slot, so the
+\* number of open inputs never exceeds --readers - whatever the number of mentions - and with
+\* --readers <= MaxFd the operating system never refuses a descriptor
+FdOK ==
+  /\ fd = NOpen /\ fd <= MaxFd
+  /\ fd <= MaxOpen(sc)
+  /\ \A i \in DOMAIN rd : rd[i].open => rd[i].held
+  /\ sc.readers <= MaxFd => \A i \in DOMAIN rd : ~rd[i].emf
+ErrsOK == errs = Cardinality({i \in DOMAIN rd : rd[i].errd \/ rd[i].emf
+                                                \/ (rd[i].st \in {"release", "done"} /\ KindOf(rd[i]) = "absent")})
 LinesOnce == \A i \in DOMAIN rd : rd[i].n <= Len(LinesOf(Stream(rd[i])))
 
 \* final state: every mention was read exactly once, every input that does not fail was delivered
 \* completely from its first byte, a failing one delivered a prefix; the error counter, and with it
-\* the exit status, is what Inputs demands
+\* the exit status, is what Inputs demands; no descriptor is left open
 FinalOK ==
   closed =>
     LET ms == Mentions(sc) IN
-    /\ sema = 0 /\ wg = 0 /\ q = <<>>
+    /\ sema = 0 /\ wg = 0 /\ q = <<>> /\ fd = 0
     /\ Len(rd) = Len(ms)
     /\ \A i \in DOMAIN rd :
          LET ro == ReadOutcome(sc, ms[i]) IN
